@@ -3,6 +3,7 @@ package vsim
 import (
 	"errors"
 	"fmt"
+	"sort"
 	"strings"
 
 	"github.com/gammazero/nexus/v3/router"
@@ -245,7 +246,20 @@ func (q *Seq) render(r *SeqRealm, sidx int, m wamp.Message) []string {
 		}
 		return out
 	case *wamp.Goodbye:
-		return []string{fmt.Sprintf("GOODBYE(%s)", x.Reason), "GOODBYE(*)"}
+		// details: a message, and for the victims of kill_all the router's own marker; anything
+		// else (such as that marker on another kill's GOODBYE, left over from somewhere) shows
+		var extra []string
+		for k := range x.Details {
+			if k != "message" {
+				extra = append(extra, k)
+			}
+		}
+		sort.Strings(extra)
+		suffix := ""
+		if len(extra) > 0 {
+			suffix = "+" + strings.Join(extra, "+")
+		}
+		return []string{fmt.Sprintf("GOODBYE(%s)%s", x.Reason, suffix), "GOODBYE(*)" + suffix}
 	case *wamp.Abort:
 		return []string{fmt.Sprintf("ABORT(%s)", x.Reason)}
 	}
